@@ -593,8 +593,10 @@ def finish(ctx, level, rule, distinct_nontrivial, exhaustive=False, explanation=
     ev = {"property_id": ctx.prop, "tier": ctx.tier, "seed": ctx.seed, "level": level, "coverage": cov,
           "assumptions": ctx.assumptions, "wall_s": round(time.time() - ctx.t0, 2), "violations": len(new),
           "notes": ctx.notes}
-    os.makedirs(os.path.join(ROOT, "evidence"), exist_ok=True)
-    with open(os.path.join(ROOT, "evidence", ctx.prop + ".json"), "w") as fh:
+    # evidence/ describes runs against /repo only; a run pointed elsewhere (VERIF_REPO) writes under build/
+    evdir = os.path.join(ROOT, "evidence") if REPO == "/repo" else os.path.join(BUILD, "evidence-other-tree")
+    os.makedirs(evdir, exist_ok=True)
+    with open(os.path.join(evdir, ctx.prop + ".json"), "w") as fh:
         json.dump(ev, fh, indent=1, sort_keys=True)
         fh.write("\n")
     ctx.log("verdict rc=%d: %d new violation(s), %d known-finding signature(s), evaluations=%d" %
